@@ -22,8 +22,9 @@
      src/logics/Logic.cc:1245    Logic::dumpHeaderToFile        -> dump_decl
 
    The fragments of the code that are pure tables or guards are regenerated from the source text by
-   translate/smt2tokens.py (Gen_Tokens.v); a [variant] selects between what the code does today (faithful) and the
-   repaired behaviour proposed in /verif/proposed_fixes/C17_*.diff (repaired). *)
+   translate/smt2tokens.py (Gen_Tokens.v); a [variant] selects between what the working tree does (faithful, from the
+   regenerated flags), what the pinned commit does (pinned, a literal) and the behaviour of the repairs proposed in
+   /verif/proposed_fixes (repaired). *)
 From Coq Require Import String Ascii List Bool Arith DecimalString Decimal.
 From OsmtV.Print Require Import Gen_Tokens Reader.
 Import ListNotations.
@@ -74,11 +75,22 @@ Record variant := {
   v_echo_raw : bool;              (* get-value echo prints raw names, streams NULL for (as ..) nodes, glues "(!" *)
   v_core_raw : bool }.            (* get-unsat-core prints raw names *)
 
+(* the working tree, as the translator reads it *)
 Definition faithful : variant :=
-  {| v_table := gen_tokenNames; v_quote_empty := false; v_quote_minus_digit := false;
+  {| v_table := gen_tokenNames; v_quote_empty := gen_protect_empty; v_quote_minus_digit := gen_protect_minus_digit;
      v_view_key_bug := gen_disamb_key_is_view_data; v_sort_raw := gen_sort_raw_names;
-     v_default_raw := gen_default_definition_raw_name; v_formal_by_term := gen_formal_collision_own_name_only;
+     v_default_raw := gen_default_definition_raw_name; v_formal_by_term := gen_clash_by_term;
      v_assign_raw := gen_assignment_seekp_raw_format; v_echo_raw := gen_echo_raw_names; v_core_raw := gen_core_raw_names |}.
+
+(* the pinned commit, written out: the refutations are stated about it and stay true when the tree is repaired;
+   Properties_C17.model_is_pinned_code records that the working tree still is this variant *)
+Definition pinned_tokenNames : list string :=
+  ["none"; "as"; "decimal"; "numeral"; "par"; "string"; "exists"; "forall"; "assert"; "check-sat"; "declare-sort"; "define-sort"; "declare-fun"; "declare-const"; "define-fun"; "exit"; "get-assertions"; "get-assignment"; "get-info"; "set-info"; "get-option"; "set-option"; "get-proof"; "get-unsat-core"; "get-value"; "get-model"; "pop"; "push"; "set-logic"; "get-interpolants"; "theory"; "write-state"; "read-state"; "simplify"; "write-funs"; "let"; "echo"].
+
+Definition pinned : variant :=
+  {| v_table := pinned_tokenNames; v_quote_empty := false; v_quote_minus_digit := false;
+     v_view_key_bug := true; v_sort_raw := true; v_default_raw := true; v_formal_by_term := true;
+     v_assign_raw := true; v_echo_raw := true; v_core_raw := true |}.
 
 (* words that the two lexers reserve and the table lacks *)
 Definition missing_reserved : list string :=
@@ -218,61 +230,79 @@ Fixpoint sort_eqb (a b : sort) : bool :=
        end) l1 l2
   end.
 
-Definition clashes (v : variant) (user : list symdecl) (p : string * sort) : bool :=
+(* hasClash.  faithful: the parameter is one of the user's constants (same name and sort: the same PTRef).
+   repaired: its name is the name of any user symbol, or some parameter of any printed definition (allp: the parameters
+   of all definitions, which exist as variables of the logic) has the same name and another sort. *)
+Definition clashes (v : variant) (user : list symdecl) (allp : list (string * sort)) (p : string * sort) : bool :=
   if v_formal_by_term v
   then existsb (fun u => sd_nullary u && String.eqb (sd_name u) (fst p) && sort_eqb (sd_ret u) (snd p)) user
-  else existsb (fun u => String.eqb (sd_name u) (fst p)) user.
+  else existsb (fun u => String.eqb (sd_name u) (fst p)) user
+       || existsb (fun q => String.eqb (fst q) (fst p) && negb (sort_eqb (snd q) (snd p))) allp.
+
+(* the loop condition of the renaming.  faithful: forbiddenVars.find(var), again by term; repaired: logic.hasSym(name),
+   any symbol of that name (avoid: the names the logic knows: user symbols, all parameters, the names chosen so far) *)
+Definition taken (v : variant) (user : list symdecl) (avoid : list string) (name : string) (s : sort) : bool :=
+  if v_formal_by_term v
+  then existsb (fun u => sd_nullary u && String.eqb (sd_name u) name && sort_eqb (sd_ret u) s) user
+  else mem_str name avoid.
 
 Definition safe_prefix (fname : string) : string :=
   if Ascii.eqb (front fname) (front gen_safe_prefix_char) then gen_safe_prefix_if else gen_safe_prefix_else.
 
-(* do { name = prefix + num++ } while (forbidden): fuel bounds the number of skipped candidates *)
-Fixpoint fresh_param (v : variant) (user : list symdecl) (prefix : string) (s : sort) (num fuel : nat)
+(* do { name = prefix + num++ } while (taken): fuel bounds the number of skipped candidates *)
+Fixpoint fresh_param (v : variant) (user : list symdecl) (avoid : list string) (prefix : string) (s : sort) (num fuel : nat)
   : option (string * nat) :=
   match fuel with
   | O => None
   | S f => let name := prefix ++ dec num in
-           if clashes v user (name, s) then fresh_param v user prefix s (S num) f
+           if taken v user avoid name s then fresh_param v user avoid prefix s (S num) f
            else Some (name, S num)
   end.
 
-Fixpoint rename_params (v : variant) (user : list symdecl) (prefix : string) (ps : list (string * sort)) (num : nat)
-  : option (list (string * sort) * nat) :=
+Fixpoint rename_params (v : variant) (user : list symdecl) (avoid : list string) (prefix : string)
+         (ps : list (string * sort)) (num : nat) : option (list (string * sort) * nat * list string) :=
   match ps with
-  | [] => Some ([], num)
+  | [] => Some ([], num, avoid)
   | (_, s) :: r =>
-    match fresh_param v user prefix s num (S (List.length user)) with
+    match fresh_param v user avoid prefix s num (S (List.length user + List.length avoid)) with
     | None => None
     | Some (name, num') =>
-      match rename_params v user prefix r num' with
+      match rename_params v user (name :: avoid) prefix r num' with
       | None => None
-      | Some (l, n2) => Some ((name, s) :: l, n2)
+      | Some (l, n2, av2) => Some ((name, s) :: l, n2, av2)
       end
     end
   end.
 
-(* one function definition through the resolver; fname is the raw symbol name *)
-Definition resolve_one (v : variant) (user : list symdecl) (d : symdecl) (df : definition) (num : nat)
-  : option (definition * nat) :=
-  if existsb (clashes v user) (df_params df) then
-    match rename_params v user (safe_prefix (sd_name d)) (df_params df) num with
+(* one function definition through the resolver *)
+Definition resolve_one (v : variant) (user : list symdecl) (allp : list (string * sort)) (avoid : list string)
+           (d : symdecl) (df : definition) (num : nat) : option (definition * nat * list string) :=
+  if existsb (clashes v user allp) (df_params df) then
+    match rename_params v user avoid (safe_prefix (sd_name d)) (df_params df) num with
     | None => None
-    | Some (ps, num') =>
-      Some ({| df_name := protectName v (sd_name d) (sd_interp d); df_params := ps; df_ret := df_ret df |}, num')
+    | Some (ps, num', av') =>
+      Some ({| df_name := protectName v (sd_name d) (sd_interp d); df_params := ps; df_ret := df_ret df |}, num', av')
     end
-  else Some (df, num).
+  else Some (df, num, avoid).
 
-Fixpoint resolve_clashes (v : variant) (user : list symdecl) (fs : list (symdecl * definition)) (num : nat)
-  : option (list definition) :=
+Fixpoint resolve_loop (v : variant) (user : list symdecl) (allp : list (string * sort)) (avoid : list string)
+         (fs : list (symdecl * definition)) (num : nat) : option (list definition) :=
   match fs with
   | [] => Some []
   | (d, df) :: r =>
-    match resolve_one v user d df num with
+    match resolve_one v user allp avoid d df num with
     | None => None
-    | Some (df', num') =>
-      match resolve_clashes v user r num' with None => None | Some l => Some (df' :: l) end
+    | Some (df', num', av') =>
+      match resolve_loop v user allp av' r num' with None => None | Some l => Some (df' :: l) end
     end
   end.
+
+Definition all_params (fs : list (symdecl * definition)) : list (string * sort) :=
+  flat_map (fun x => df_params (snd x)) fs.
+
+Definition resolve_clashes (v : variant) (user : list symdecl) (fs : list (symdecl * definition)) : option (list definition) :=
+  let allp := all_params fs in
+  resolve_loop v user allp (map sd_name user ++ map fst allp) fs 0.
 
 (* Interpret::printDefinitionSmtlib: the part of the text before the body *)
 Definition def_header_const (v : variant) (d : symdecl) : string :=
